@@ -62,8 +62,24 @@ def ka_histories(rng, n):
                 ops.append({'op': 'set', 'what': what, 'value': not cur_val[0]})
         if ops[-1]['op'] == 'set':
             ops.pop()
+        same = rng.random() < .3
+        if not same and rng.random() < .3:
+            # a call with an empty input brings new functions; the next call has the same ones and something to do
+            maps = [o2 for o2 in ops if o2['op'] != 'set']
+            if len(maps) >= 2:
+                j = rng.randrange(1, len(maps))
+                import copy as _copy
+                empty = _copy.deepcopy(maps[j])
+                empty['n'] = 0
+                empty['func_group'] = 1
+                maps[j]['func_group'] = 1
+                for o2 in maps[:j]:
+                    o2['func_group'] = 0
+                for o2 in maps[j + 1:]:
+                    o2['func_group'] = 2
+                ops.insert(ops.index(maps[j]), empty)
         ops.append({'op': 'stop_and_join', 'want_exit_results': True})
-        scs.append({'seed': rng.randint(0, 10 ** 6), 'pool': pool, 'ops': ops, 'same_func': rng.random() < .3, 'relax_shape': True})
+        scs.append({'seed': rng.randint(0, 10 ** 6), 'pool': pool, 'ops': ops, 'same_func': same, 'relax_shape': True})
     return scs
 
 
